@@ -717,11 +717,15 @@ def run(pid, tier, seed, extra=None):
                 rep.errors.append(f"bounded evaluation of {con.qual} failed on {len(st['errors'])} inputs: {st['errors'][0]}")
             if st["evaluations"] == 0:
                 rep.errors.append(f"bounded evaluation of {con.qual}: the contract was never evaluated")
-            for bad, r in st["failures"][:1]:
+            known_clauses = {k["obligation"].split("/post.", 1)[1] for k in known_open
+                             if k["obligation"].startswith(con.qual + "/post.")}
+            known_whole = any(k["obligation"] in (con.qual + "/bounded.contract",) for k in known_open)
+            fresh = [(bad, r) for bad, r in st["failures"] if not (set(bad) <= known_clauses) and not known_whole]
+            for bad, r in fresh[:1]:
+                bad = [b for b in bad if b not in known_clauses]
                 oid = f"{con.qual}/bounded.{bad[0]}"
                 already = any(v[0].startswith(con.qual + "/") for v in rep.violations)
-                kf = next((k for k in known_open if k["obligation"].startswith(con.qual + "/")), None)
-                if already or kf is not None:
+                if already:
                     continue
                 path = write_replay(pid, oid, {"property": pid, "obligation": oid, "function": con.qual,
                                                "status": "contract clause false on the real code (bounded stand-in)",
